@@ -620,6 +620,18 @@ func (g *gen) next(l *live, prop string) step {
 	case "C11":
 		wReq, wPex = 6, 3
 	}
+	if prop == "C16" && l.metaSet && st.AmUnchoking && len(l.sc.My) > 0 && r.Intn(3) == 0 {
+		// keep the upload queue busy: a request for a block we hold
+		pi := l.sc.My[r.Intn(len(l.sc.My))]
+		nb := (l.plen(pi) + 16383) / 16384
+		bi := r.Intn(nb)
+		s.Kind, s.T = "msg", "Request"
+		s.A, s.B, s.C = uint32(pi), uint32(bi*16384), 16384
+		if rest := l.plen(pi) - bi*16384; rest < 16384 {
+			s.C = uint32(rest)
+		}
+		return s
+	}
 	x := r.Intn(30 + wUpload + wReq + wPex)
 	g.hot = false
 	forced := ""
@@ -672,6 +684,16 @@ func (g *gen) next(l *live, prop string) step {
 			s.Data = g.bitfield(l)
 		case "Request", "Cancel":
 			s.A, s.B, s.C = g.pick32(l, "index"), g.pick32(l, "begin"), g.pick32(l, "length")
+			if s.T == "Request" && len(l.sc.My) > 0 && l.metaSet && r.Intn(5) != 0 {
+				// a request we can serve: a block of a piece we hold
+				pi := l.sc.My[r.Intn(len(l.sc.My))]
+				nb := (l.plen(pi) + 16383) / 16384
+				bi := r.Intn(nb)
+				s.A, s.B, s.C = uint32(pi), uint32(bi*16384), 16384
+				if rest := l.plen(pi) - bi*16384; rest < 16384 {
+					s.C = uint32(rest)
+				}
+			}
 			if s.T == "Cancel" && len(st.Upload) > 0 && r.Intn(3) != 0 {
 				u := st.Upload[r.Intn(len(st.Upload))]
 				s.A, s.B, s.C = u.Index, u.Begin, u.Length
@@ -728,8 +750,24 @@ func (g *gen) next(l *live, prop string) step {
 		}
 	case x < 14+wReq: // scheduler asks for chunks
 		s.Kind, s.T = "ev", "PeerRequest"
+		var have []int
+		st.Bitmap.Range(func(i int) bool {
+			have = append(have, i)
+			return true
+		})
 		for i := 1 + r.Intn(6); i > 0; i-- {
-			s.Chunks = append(s.Chunks, g.pick32(l, "chunk"))
+			c := g.pick32(l, "chunk")
+			if len(have) > 0 && l.metaSet && r.Intn(5) != 0 {
+				np, nchunks, cpp := l.geometry()
+				pi := have[r.Intn(len(have))]
+				if pi < np {
+					c = uint32(pi)*cpp + uint32(r.Intn(int(cpp)))
+					if c >= nchunks {
+						c = nchunks - 1
+					}
+				}
+			}
+			s.Chunks = append(s.Chunks, c)
 		}
 		if !l.metaSet || r.Intn(4) == 0 {
 			s.Chunks = append(s.Chunks, 0)
@@ -792,6 +830,45 @@ func (g *gen) next(l *live, prop string) step {
 	return s
 }
 
+// prologue opens most histories the way a real session starts, so that the later
+// random steps act on a peer that advertises pieces, has unchoked us and/or is being
+// served by us.
+func (g *gen) prologue(l *live) []step {
+	r := g.r
+	var p []step
+	if !l.metaSet {
+		return nil
+	}
+	profile := r.Intn(5) // 0 none, 1 download, 2 upload, 3-4 both
+	if profile == 1 || profile >= 3 {
+		if l.sc.Fast && r.Intn(2) == 0 {
+			p = append(p, step{Kind: "msg", T: "HaveAll"})
+		} else {
+			np, _, _ := l.geometry()
+			b := make([]byte, (np+7)/8)
+			for i := 0; i < np; i++ {
+				if r.Intn(4) != 0 {
+					b[i/8] |= 0x80 >> uint(i%8)
+				}
+			}
+			p = append(p, step{Kind: "msg", T: "Bitfield", Data: cq.EncodeRuns(b)})
+		}
+		if r.Intn(4) != 0 {
+			p = append(p, step{Kind: "msg", T: "Unchoke"})
+		}
+		p = append(p, step{Kind: "ev", T: "PeerInterested", Flag: true})
+	}
+	if profile == 2 || profile >= 3 {
+		p = append(p, step{Kind: "msg", T: "Interested"})
+		p = append(p, step{Kind: "ev", T: "PeerUnchoke", Flag: true})
+	}
+	if l.sc.Ext && r.Intn(2) == 0 {
+		p = append(p, step{Kind: "msg", T: "Extended0", B: []uint32{0, 1, 2, 5, 250}[r.Intn(5)],
+			Msgs: map[string]uint8{"ut_pex": 1, "ut_metadata": 2, "lt_donthave": 3}})
+	}
+	return p
+}
+
 func (g *gen) scenario(id int) *scenario {
 	r := g.r
 	sc := &scenario{ID: id}
@@ -839,10 +916,17 @@ func runScenario(sc *scenario, g *gen, prop string, nsteps int) (string, map[str
 	if replay {
 		nsteps = len(sc.Steps)
 	}
+	var prologue []step
+	if !replay {
+		prologue = g.prologue(l)
+		nsteps += len(prologue)
+	}
 	for i := 0; i < nsteps; i++ {
 		var s step
 		if replay {
 			s = sc.Steps[i]
+		} else if i < len(prologue) {
+			s = prologue[i]
 		} else {
 			s = g.next(l, prop)
 		}
